@@ -136,3 +136,37 @@ func VerifC12_SplitTotal() {
 		verif_Assert(bytes.Equal(CreateValueKey(pid, ctx), in), "re-joining the parts gives the input")
 	}
 }
+
+// C12 (b): encryption leaves its inputs untouched, so that encrypting the same
+// inputs again gives identical bytes — also when the payload slice has spare
+// capacity (as value keys built by CreateValueKey have).
+func VerifC12_EncryptKeepsInputs() {
+	n := verif_Choose("payloadLen", 0, 3)
+	raw := verif_Bytes("payload", n)
+	payload := append(make([]byte, 0, 64), raw...) // spare capacity behind the payload
+	pass := verif_Bytes("pass", 2)
+	meta := verif_Bool("metadataVariant")
+	enc := func() ([]byte, error) {
+		if meta {
+			return EncryptMetadata(payload, pass)
+		}
+		return EncryptValueKey(payload, pass)
+	}
+	e1, err1 := enc()
+	verif_Assert(bytes.Equal(payload, raw), "encryption does not modify the payload it was given")
+	e2, err2 := enc()
+	verif_Reach("encrypted twice")
+	verif_Assert(err1 == nil && err2 == nil && bytes.Equal(e1, e2), "encrypting the same inputs twice gives identical bytes")
+	// the reader-privacy sequence: the value key is encrypted first, then used as
+	// passphrase for the metadata
+	pidBytes := []byte{0x00, 0x02, 0xaa, verif_U8("peerByte")}
+	pid, perr := peer.IDFromBytes(pidBytes)
+	verif_Assume(perr == nil)
+	vk := CreateValueKey(pid, verif_Bytes("ctx", 1))
+	vkCopy := append([]byte{}, vk...)
+	_, verr := EncryptValueKey(vk, pass)
+	verif_Assert(verr == nil && bytes.Equal(vk, vkCopy), "encrypting a value key leaves the value key intact")
+	emd, merr := EncryptMetadata(raw, vk)
+	dmd, derr := DecryptMetadata(emd, vkCopy)
+	verif_Assert(merr == nil && derr == nil && bytes.Equal(dmd, raw), "metadata encrypted under the value key decrypts with the value key")
+}
